@@ -6,6 +6,7 @@ import toygen
 import impl as implmod
 
 PROP = "C16"
+CONSTS = ['mem']          # constant tables of the models this property depends on
 RULE = ("programs (RISC-V both modes with random data/instruction cache configurations, TOY images) stepped with random subsets "
         "and repetitions of ALL read-only inspection functions (register/memory/instruction/cache tables, cache statistics, SVG "
         "update lists, metrics text, output, exit code, done, has-instructions) between steps; the model treats them as no-ops, the "
